@@ -17,7 +17,8 @@ RULE = ('component patterns: strings over a weighted alphabet of letters, glob m
         'path globs: 1..5 components drawn from literals / * / ** / a* / ? / bracket forms with optional base prefix, '
         'trailing slash and type f/d/*; paths: 0..5 components over a small name pool so that matches are frequent; '
         'trees: random real directory trees under /var/tmp (depth <= 4, symlinked dirs, hidden and backup names, names '
-        'with metacharacters and spaces); filters: 1..3 includes x extra x exclude x filter_fn x type; '
+        'with metacharacters and spaces, file and directory names ending in one or more dots, made of three or four dots, or '
+        'starting with two dots, and patterns whose last component ends in a dot); filters: 1..3 includes x extra x exclude x filter_fn x type; '
         'near-prefix families: trees holding a directory X, sub-directories of X (two levels), siblings X<c>.. and X/sub<c>.. '
         'for characters <c> on both sides of the separator (- . space + ! # , $ & quote parentheses % tab newline | 0 2 _ a ~ = @ ; '
         'non-ASCII), unrelated directories, optionally below a parent with its own near-prefix sibling, and lists of 2..4 '
@@ -89,6 +90,17 @@ def spec_match(pat, comps):
     return bool(comps) and spec_comp(pat[0], comps[0]) and spec_match(pat[1:], comps[1:])
 
 
+class Ent:
+    """a directory entry for the documented-rules oracle: root, components, is-a-directory (what os.listdir / os.path.isdir
+    say), independent of the Path constructor"""
+
+    def __init__(self, root, comps, directory):
+        self.root, self.comps, self.directory = root, list(comps), directory
+
+    def split(self):
+        return list(self.comps)
+
+
 def spec_pathglob(gpath, gtype, p, skip_base):
     """gpath: pattern Path; gtype: resolved Glob.Type chars 'f','d','*'; p: Path."""
     bits = gpath.split()
@@ -115,7 +127,7 @@ FN_CORPUS = ['', '*', '?', '**', 'a*', '*a', '*a*', 'a?b', '[', ']', '[]', '[]]'
              '***', 'a**b', '.*#', '*~', '#*#', '.#*', '[a-a]', '[a-b-]', '[a-b-a]', '[-]', '[--]', '[---]', '[!-]', '[!--]',
              '[a|b]', '[a||b]', '[a&&b]', '[~~]', '[a-z&&[^b]]', '[b-a]', '[!b-a]', '[ca-a]', '[b-ac-b]', '[b-ac]', '[cb-a]']
 NAME_CORPUS = ['', 'a', 'b', 'c', 'ab', 'abc', '-', '!', ']', '[', '^', '\\', 'a]', '.a', 'a~', '#a#', '.#a', 'z', 'é', '\n', 'a\n',
-               '|', '&', '~', 'x', 'ba', 'aa', 'a-c', 'b]', ':', 'A']
+               '|', '&', '~', 'x', 'ba', 'aa', 'a-c', 'b]', ':', 'A', 'a.', 'a..', '...', '..a', '.a.', 'a.b.']
 
 
 def wstr(rng, alpha, maxlen):
@@ -139,9 +151,18 @@ def gen_name(rng):
     return rng.choice(NAME_CORPUS) if rng.random() < 0.4 else wstr(rng, NAME_ALPHA, 5)
 
 
-POOL = ['a', 'b', 'ab', 'c', 'a.c', 'b.c', '.a', 'a~', 'a b', 'a*', '[a]', 'src', 'x']
+# names ending in dots, made of dots only (three or more), or starting with two dots are ordinary names
+DOT_NAMES = ['a.', 'b..', '...', '..x', '.a.', 'a.c.', '....']
+DOT_PCOMPS = ['*.', 'a.', '?.', '...', '*..', '.*.', '..*', '*.c.', '[ab].', 'a*.']
+POOL = ['a', 'b', 'ab', 'c', 'a.c', 'b.c', '.a', 'a~', 'a b', 'a*', '[a]', 'src', 'x'] + DOT_NAMES[:5]
 PCOMPS = ['a', 'b', 'ab', 'c', 'src', 'x', '*', '*', '**', '**', 'a*', '?', '*.c', '[ab]', '[!a]', '?b', '*b', '.*', '*~', 'a[*]',
-          '[[]a]', '*a*']
+          '[[]a]', '*a*'] + DOT_PCOMPS[:6]
+
+
+def pattern_is_dir(s):
+    """the documented reading of a pattern string: it names directories exactly when it ends with a separator (or its
+    last component is . or ..); a last component that merely ends with a dot is an ordinary name pattern"""
+    return s == '' or s[-1] in '/\\' or re.split(r'[/\\]', s)[-1] in ('.', '..')
 
 
 def gen_pattern(rng, rep=None):
@@ -157,6 +178,10 @@ def gen_pattern(rng, rep=None):
         s += '/'
     if rng.random() < 0.04:
         s = '/' + s          # absolute pattern (root becomes Root.absolute)
+    if re.match(r'^[/\\]{2}', s):
+        # two leading separators make a UNC prefix (the share swallows the glob components, the constructor rejects the
+        # rest as a drive-relative path): the path algebra of such strings is C12's subject, not a pattern
+        s = '/' + s.lstrip('/\\')
     t = rng.choice([None, None, None, 'f', 'd', '*'])
     root = rng.choice(['srcdir', 'srcdir', 'srcdir', 'builddir'])
     return s, t, root
@@ -209,6 +234,7 @@ def stage_w_pathglob(rep, rng, n):
     from bfg9000.path import Path, Root
     calls, impl = [], []
     failures = 0
+    cap = Capped(rep, 8)
     for _ in range(n):
         pat, t, root = gen_pattern(rng)
         try:
@@ -218,18 +244,32 @@ def stage_w_pathglob(rep, rng, n):
         g = make_glob(pat, t, root)
         spec = [enc_path(gp), enc_type(t)]
         paths = []
+        def entry(s, r, isdir, below=None):
+            """the Path of a directory entry, as the walk builds it; a name that is not empty, . or .. is a file name"""
+            try:
+                if below is not None and below.suffix:
+                    q = below.append(s)
+                    return q.as_directory() if isdir else q
+                return Path(s, r, directory=isdir)
+            except Exception as e:
+                if str(e) == 'expected a non-directory path' and s and re.split(r'[/\\]', s)[-1] not in ('', '.', '..'):
+                    nonlocal failures
+                    failures += 1
+                    cap.fail('the entry name %r cannot be a file: Path(%r, directory=False) raises %s' % (s.split('/')[-1], s, e),
+                             {'kind': 'entry-path', 'path': s, 'dir': isdir}, classes=())
+                return None
         for _ in range(6):
             s, isdir = gen_pathstr(rng)
-            try:
-                paths.append(Path(s, rng.choice([Root[root]] * 5 + [Root.builddir]), directory=isdir))
-            except Exception:
-                continue
+            q = entry(s, rng.choice([Root[root]] * 5 + [Root.builddir]), isdir)
+            if q is not None:
+                paths.append(q)
         # extensions of generated paths, so that never-soundness has something to bite on
         for p in list(paths)[:3]:
             s, isdir = gen_pathstr(rng)
             if s:
-                paths.append(Path(s, p.root, directory=isdir) if not p.suffix else p.append(s).as_directory()
-                             if isdir else p.append(s))
+                q = entry(s, p.root, isdir, p)
+                if q is not None:
+                    paths.append(q)
         for p in paths:
             for skip in (False, True):
                 calls.append(('glob.pmatch', [spec, enc_path(p), skip]))
@@ -241,7 +281,7 @@ def stage_w_pathglob(rep, rng, n):
                 impl.append(r.name)
                 rep.count('pg:' + r.name)
                 rep.case('pg:%s:%s:%s:%s:%s' % (pat, t, p.suffix, p.directory, skip), bool(p.suffix))
-                want = spec_pathglob(gp, g.type.to_char(), p, skip)
+                want = spec_pathglob(gp, t or ('d' if pattern_is_dir(pat) else 'f'), p, skip)
                 if (r.name == 'yes') != want:
                     failures += 1
                     rep.fail('PathGlob(%r, %r).match(%r dir=%r, skip_base=%r) = %s but the documented rules say %s' % (
@@ -308,13 +348,14 @@ def stage_w_nameglob(rep, rng, n):
 
 # ----------------------------------------------------------------------------- trees, filters, walks
 TREE_NAMES = ['a', 'b', 'ab', 'c', 'a.c', 'b.c', 'a.h', 'x.h', '.hid', '.a.c', 'a~', 'a.c~', '#a#', '.#a', 'a b', 'a*', '[a]',
-              'a?b', 'sub', 'src', 'x', 'é.c', 'a\nb', '-', '!a', 'a]', '**', 'lib', 'b.h']
+              'a?b', 'sub', 'src', 'x', 'é.c', 'a\nb', '-', '!a', 'a]', '**', 'lib', 'b.h',
+              'notes.', 'v1.2.', 'a.', '..x', '...', 'b..', '.a.', 'a.c.', '. .', '..a.c']
 TREE_PCOMPS = ['*', '*', '**', '**', '*.c', '*.h', 'a*', '?', '[ab]*', 'sub', 'src', 'a', 'b', 'lib', '.*', '*~', '[!.]*', 'a[*]',
-               '[[]a]', '*b*', '?.?', 'x*']
-REALISTIC = ['*', '**', '*.c', '**/*.c', '**/*.h', '*/*.c', '**/a*', 'sub/**', '**/sub/*', '*/*', '**/*', '**/*/*', 'a*/**/*.c',
+               '[[]a]', '*b*', '?.?', 'x*'] + DOT_PCOMPS
+REALISTIC = ['*.', '**/*.', '*/*.', '**/*./**', 'a.c./*', '*', '**', '*.c', '**/*.c', '**/*.h', '*/*.c', '**/a*', 'sub/**', '**/sub/*', '*/*', '**/*', '**/*/*', 'a*/**/*.c',
              '**/[ab]*', '**/?', '**/*b*/**', '**/a/**/b*', '*/**/*.?', '**/**/a*', '**/*.c/**', '?*/**']
-EXTRAS = [[], [], ['*.h'], ['*.h', 'x*'], ['sub/'], ['a*'], ['*'], ['[ab]/'], ['*.c']]
-EXCLUDES = [[], [], ['sub'], ['a*'], ['*.c'], ['b/'], ['lib/', 'x'], ['*'], ['??']]
+EXTRAS = [[], [], ['*.h'], ['*.h', 'x*'], ['sub/'], ['a*'], ['*'], ['[ab]/'], ['*.c'], ['*.'], ['*./']]
+EXCLUDES = [[], [], ['sub'], ['a*'], ['*.c'], ['b/'], ['lib/', 'x'], ['*'], ['??'], ['*.'], ['*./']]
 DEFAULT_EXCLUDE = ['.*#', '*~', '#*#']
 
 
@@ -424,7 +465,7 @@ def gen_filter_spec(rng, fstree, rep=None):
 # characters that sort before the separator '/' (0x2f) and may stand in a literal base component, and some after it
 BEFORE_SEP = ['-', '.', ' ', '+', '!', '#', ',', '$', '&', "'", '(', ')', '%', '"', '\t', '\n']
 AFTER_SEP = ['0', '2', '_', 'a', '~', '=', '@', ';', 'é', '{']
-FAMILY_TAILS = ['*.c', '*.c', '*', '**/*.c', '**', '*/*.c', '*.h', '**/*', '*/', '**/', '?.c', '[ab].c']
+FAMILY_TAILS = ['*.c', '*.c', '*', '**/*.c', '**', '*/*.c', '*.h', '**/*', '*/', '**/', '?.c', '[ab].c', '*.', '**/*.', '*./']
 
 
 def family_shape(all_bases):
@@ -466,7 +507,8 @@ def gen_family_job(rng, rep=None, nspecs=8):
         names = sorted(set(d[len(depth)] for d in dirset if len(d) > len(depth) and d[:len(depth)] == depth))
         out = [[1, n, False, tree_of(dirset, depth + (n,))] for n in names]
         if depth:
-            out += [[0, f] for f in rng.sample(['a.c', 'b.c', 'x.h', 'a.h', 'c.c'], rng.randint(2, 4)) if f not in names]
+            out += [[0, f] for f in rng.sample(['a.c', 'b.c', 'x.h', 'a.h', 'c.c', 'n.', 'v1.2.', '...', '..x'], rng.randint(2, 5))
+                    if f not in names]
         rng.shuffle(out)
         return out
     bdirs = [(X,), (X, sub), (sibs[0],)]
@@ -621,7 +663,7 @@ def spec_selected(spec, tab, fsys, bases):
     inc = []
     for s, r in spec['include']:
         gp = Path.ensure(s, Root[r])
-        inc.append((gp, spec['type'] or ('d' if gp.directory else 'f')))
+        inc.append((gp, spec['type'] or ('d' if pattern_is_dir(s) else 'f')))
     single = len(inc) == 1
 
     def ng(pats, name, isdir):
@@ -639,7 +681,7 @@ def spec_selected(spec, tab, fsys, bases):
         name = comps[-1] if comps else ''
         if ng(spec['exclude'], name, isdir):
             return False
-        p = Path('/'.join(comps), Root(rootv), directory=isdir)
+        p = Ent(Root(rootv), comps, isdir)       # the entry as the file system shows it (no Path construction)
         hit = any(spec_pathglob(gp, t, p, single) for gp, t in inc)
         return hit and fnval((rootv, tuple(comps))) == 0
 
@@ -759,6 +801,7 @@ def stage_walk(rep, rng, ntrees, nfilters, recorded=()):
     calls, impl, meta = [], [], []
     failures = 0
     cap = Capped(rep)
+    ecap = Capped(rep, 3)
     for job in list(recorded) + [None] * ntrees:
         sc = Scene(rng, rep, fsys=job['fsys'] if job else None)
         try:
@@ -847,7 +890,16 @@ def stage_walk(rep, rng, ntrees, nfilters, recorded=()):
                 meta.append('found-only')
                 # FileFilter.match on entries of the tree, as file and as directory
                 keys = sorted(set(k for rv, tr in sc.fsys for k in all_entries(tr, rv)))[:40]
-                paths = [Path('/'.join(k[1]), Root(k[0]), directory=d) for k in keys for d in (False, True)]
+                paths = []
+                for k in keys:
+                    for d in (False, True):
+                        try:
+                            paths.append(Path('/'.join(k[1]), Root(k[0]), directory=d))
+                        except ValueError as e:
+                            failures += 1
+                            ecap.fail('the entry %r of the tree cannot be a %s: Path(%r, directory=%r) raises %s' % (
+                                k[1][-1], 'directory' if d else 'file', '/'.join(k[1]), d, e),
+                                {'kind': 'entry-path', 'path': '/'.join(k[1]), 'dir': d}, classes=())
                 calls.append(('find.fmatch', [mspec, [enc_path(p) for p in paths]]))
                 impl.append([ff.match(p).name for p in paths])
                 meta.append(None)
@@ -904,12 +956,18 @@ def stage_session(rep, rng, ntrees, ncalls, recorded=()):
                     s['extra'] = ['*.h']
                 tabs.append(fn_table(s['fn'], sc.fsys))
             mcalls, results = [], []
-            for _ in range(ncalls):
-                i = rng.randrange(len(specs))
+            # call histories: random ones, and in most sessions a directed beginning - the same search first WITHOUT
+            # registering for the distribution and then with it (the second is served from the cache filled by the first),
+            # or twice with registration
+            plan = []
+            if rng.random() < 0.8:
+                i0 = rng.randrange(len(specs))
+                plan += [(i0, rng.random() < 0.25, True), (i0, True, True)]
+            while len(plan) < ncalls:
+                plan.append((rng.randrange(len(specs)), rng.random() < 0.75, rng.random() < 0.8))
+            for i, dist, cache in plan:
                 spec, tab = specs[i], tabs[i]
                 ff, mspec = build_filter(spec, tab)
-                dist = rng.random() < 0.75
-                cache = rng.random() < 0.8
                 rep.count('session:dist=%s,cache=%s' % (dist, cache))
                 if ff is None:
                     mcalls.append([mspec, [], dist, cache])
@@ -1134,5 +1192,11 @@ def replay(rep, path):
         stage_session(rep, random.Random(rep.seed), 0, 6, [{'fsys': r['fsys'], 'specs': [r['spec']]}])
     elif kind == 'name':
         stage_name_probe(rep)
+    elif kind == 'entry-path':
+        rep.case('replay', True)
+        try:
+            Path(r['path'], Root.srcdir, directory=r['dir'])
+        except ValueError as e:
+            rep.fail('Path(%r, directory=%r) raises %s' % (r['path'], r['dir'], e), r, classes=())
     else:
         run(rep)
